@@ -89,6 +89,8 @@ pub struct LsOutcome {
     pub events: Vec<rx::Event>,
     /// final reference memory overlay (addr -> byte) for checks that want to inspect it
     pub overlay: HashMap<u32, u8>,
+    /// message of a panic of the emulator during the run (never acceptable, whatever the reference says)
+    pub panic: Option<String>,
 }
 
 pub struct LsOpts<'q> {
@@ -139,6 +141,7 @@ pub fn lockstep(emu: &mut Emu, prog: &Prog, opts: &LsOpts, ctl: &mut dyn FnMut(&
         msgs: vec![],
         events: vec![],
         overlay: HashMap::new(),
+        panic: None,
     };
     let mut last: Option<Step> = None;
     let mut last_states = 0u32;
@@ -271,8 +274,9 @@ pub fn lockstep(emu: &mut Emu, prog: &Prog, opts: &LsOpts, ctl: &mut dyn FnMut(&
                 }
             }
         }
-        if let EmuResult::Panic(_) = res {
+        if let EmuResult::Panic(p) = &res {
             panicked = true;
+            out.panic = Some(p.clone());
         }
         if let Some(m) = mismatch {
             out.end = End::Mismatch(format!("{} ; emulator returned {:?}", m, res));
